@@ -338,13 +338,61 @@ def run(ctx):
                        '(difference_update / -= / filtered rebuild / loop over a copy), not discard/remove of a collection object')
     ck.rule('C20-D5c', 'nofollow, wiring: HTMLScraper(robots=session.args.robots) and the option is consulted while scraping')
     errors = []
-    for part in (_d1, _d2_d3, _d4, _d5):
+    for part in (_d1, _d2_d3, _d2_fresh_file, _d4, _d4_redirects, _d5):
         try:
             part(ctx)
         except AnalysisError as e:
             errors.append(str(e))
     if errors:
         raise AnalysisError('; '.join(errors))
+
+
+def _d2_fresh_file(ctx):
+    """The robots.txt body parsed is the body of the LAST response only: the temp file handed to download() is emptied
+    before every download of the redirect loop (a longer redirect body must not leave its tail behind the real file)."""
+    repo, ck = ctx.repo, ctx.check
+    fi = repo.func('wpull.protocol.http.robots:RobotsTxtChecker.fetch_robots_txt')
+    cfg = ctx.cfg(fi)
+    from .. import flow as F_
+    dls = [n for n in cfg.nodes if any(U.attr_name(c) == 'download' for c in F_.node_calls(n))]
+    heads = [n for n in cfg.nodes if n.kind == 'while']
+    if not dls or not heads:
+        ck.bad('C20-D2', fi.qual, 'download(file=...) inside the session loop', 'the robots.txt fetch loop was not recognised', fi.loc())
+        return
+    for d in dls:
+        dc = [c for c in F_.node_calls(d) if U.attr_name(c) == 'download'][0]
+        farg = U.kwarg(dc, 'file', 0)
+        fname = norm_text(farg) if farg is not None else None
+
+        def is_trunc(m):
+            for c in F_.node_calls(m):
+                t = norm_text(c)
+                if fname and (t in ('wpull.util.truncate_file(%s.name)' % fname, '%s.truncate(0)' % fname, '%s.truncate()' % fname)
+                              or (U.attr_name(c) == 'truncate_file' and c.args and norm_text(c.args[0]).startswith(fname))):
+                    return True
+            return False
+        bad = None
+        for h in heads:
+            p = cfg.find_path(h, lambda m, d=d: m is d, edge_ok=lambda a, b, k: True, stop=is_trunc, first_edges=lambda a, b, k: k == 'T')
+            if p is not None:
+                bad = p
+        ck.expect(bad is None and fname is not None, 'C20-D2', fi.qual, 'the file is emptied before every %s' % norm_text(dc)[:50],
+                  'a response body is downloaded into the robots.txt file without emptying it first in this loop iteration: the tail of '
+                  'a longer earlier body (e.g. the HTML of a redirect) stays behind the real robots.txt and corrupts its last rule',
+                  fi.loc(dc))
+
+
+def _d4_redirects(ctx):
+    """Redirect hops are judged by check_subsequent_web_request, which does not consult robots.txt (recorded gap)."""
+    repo, ck = ctx.repo, ctx.check
+    f = repo.func('wpull.processor.rule:FetchRule.check_subsequent_web_request')
+    consults = any(U.attr_name(c) in ('consult_robots_txt', 'can_fetch', 'can_fetch_pool') for c in U.calls(f.node))
+    if not consults:
+        ck.bad('C20-D4', f.qual, 'redirect hops are not checked against robots.txt',
+               'the target of a redirect (same or another origin) is requested after consulting the filters only: a URL its robots.txt '
+               'disallows is fetched, and the robots.txt of a new origin is never obtained first', f.loc())
+    else:
+        ck.ok('C20-D4', f.qual, 'redirect hops consult robots.txt')
 
 
 # ---------------------------------------------------------------------- D1
